@@ -54,7 +54,7 @@ type Tap struct {
 
 var ErrInjected = fmt.Errorf("injected data-plane failure")
 
-func (t *Tap) Close()                          { t.Inner.Close() }
+func (t *Tap) Close()                        { t.Inner.Close() }
 func (t *Tap) HandleReport(h report.Handler) { t.Inner.HandleReport(h) }
 
 func (t *Tap) do(op, kind string, seid uint64, id uint64, idok bool, faultable bool, call func() (int, error)) error {
@@ -203,19 +203,20 @@ type DPRule struct {
 // update/remove/query of a missing rule fail (ENOENT); removing or querying a
 // URR yields one uniquely valued report.
 type ModelDP struct {
-	Rules   map[RuleKey]*DPRule
-	gen     int
-	Serial  uint64 // report serial: unique counters identify the report
-	Issued  map[uint64]RuleKey
-	UpdRep  bool // UpdateURR returns a report
-	handler report.Handler
+	Rules    map[RuleKey]*DPRule
+	gen      int
+	Serial   uint64 // report serial: unique counters identify the report
+	Issued   map[uint64]RuleKey
+	UpdRep   bool // UpdateURR returns a report
+	NoRemRep bool // RemoveURR succeeds without a final report (like forwarder.Empty)
+	handler  report.Handler
 }
 
 func NewModelDP() *ModelDP {
 	return &ModelDP{Rules: map[RuleKey]*DPRule{}, Issued: map[uint64]RuleKey{}}
 }
 
-func (m *ModelDP) Close()                          {}
+func (m *ModelDP) Close()                        {}
 func (m *ModelDP) HandleReport(h report.Handler) { m.handler = h }
 
 func (m *ModelDP) create(k RuleKey, ok bool, i *ie.IE) error {
@@ -328,6 +329,9 @@ func (m *ModelDP) RemoveURR(s uint64, i *ie.IE) ([]report.USAReport, error) {
 	k := RuleKey{"URR", s, id}
 	if err := m.remove(k, ok); err != nil {
 		return nil, err
+	}
+	if m.NoRemRep {
+		return nil, nil
 	}
 	return []report.USAReport{m.NewReport(k)}, nil
 }
